@@ -1,12 +1,16 @@
 package server
 
 import (
+	"errors"
 	"sync"
 
 	"github.com/cbeuw/Cloak/internal/server/usermanager"
 
 	mux "github.com/cbeuw/Cloak/internal/multiplex"
 )
+
+// ErrUserTerminated is returned by GetSession on a record the panel has terminated
+var ErrUserTerminated = errors.New("the active user has been terminated")
 
 type ActiveUser struct {
 	panel *userPanel
@@ -19,6 +23,9 @@ type ActiveUser struct {
 
 	sessionsM sync.RWMutex
 	sessions  map[uint32]*mux.Session
+	// terminated is set (under sessionsM) once the panel is forgetting this record; a connection that
+	// resolved the record just before must not start a session in it
+	terminated bool
 }
 
 // CloseSession closes a session and removes its reference from the user
@@ -46,6 +53,9 @@ func (u *ActiveUser) GetSession(sessionID uint32, config mux.SessionConfig) (ses
 	if sesh = u.sessions[sessionID]; sesh != nil {
 		return sesh, true, nil
 	} else {
+		if u.terminated {
+			return nil, false, ErrUserTerminated
+		}
 		if !u.bypass {
 			ainfo := usermanager.AuthorisationInfo{NumExistingSessions: len(u.sessions)}
 			err := u.panel.Manager.AuthoriseNewSession(u.arrUID[:], ainfo)
@@ -63,6 +73,19 @@ func (u *ActiveUser) GetSession(sessionID uint32, config mux.SessionConfig) (ses
 // closeAllSessions closes all sessions of this active user
 func (u *ActiveUser) closeAllSessions(reason string) {
 	u.sessionsM.Lock()
+	for sessionID, sesh := range u.sessions {
+		sesh.SetTerminalMsg(reason)
+		sesh.Close()
+		delete(u.sessions, sessionID)
+	}
+	u.sessionsM.Unlock()
+}
+
+// terminate closes all sessions of this active user and, in the same step, stops the record from
+// taking new ones. Used when the panel forgets the record
+func (u *ActiveUser) terminate(reason string) {
+	u.sessionsM.Lock()
+	u.terminated = true
 	for sessionID, sesh := range u.sessions {
 		sesh.SetTerminalMsg(reason)
 		sesh.Close()
